@@ -525,10 +525,11 @@ Proof.
   { pose proof (len_nonneg _ done) as Ln.
     assert (G : update (JInt (len done) :: p) (JArr done) x =
                 bind (update p JNull x) (fun u => ROk (JArr (done ++ [u])))).
-    { cbn [update]. unfold clamp_index.
+    { cbn [update].
+      assert (Cl : clamp_index (len done) (-1) (len done) = len done).
+      { unfold clamp_index. split_ifs; lia. }
+      rewrite Cl, Z.ltb_irrefl.
       replace (len done <? 0) with false by (symmetry; lia).
-      replace (len done <? -1) with false by (symmetry; lia).
-      rewrite Z.ltb_irrefl. replace (len done <? 0) with false by (symmetry; lia).
       replace (max_index <=? len done) with false by (symmetry; lia).
       unfold len. rewrite Nat2Z.id.
       destruct (update p JNull x); cbn [bind]; try reflexivity. rewrite set_nth_append. reflexivity. }
@@ -621,4 +622,130 @@ Proof.
       - apply leaves_nonempty.
       - exact L. }
     pose proof (G m [] eq_refl) as G0. subst m. exact G0.
+Qed.
+
+(* ------------------------------------------------------------------ fromstream(tostream) *)
+
+Definition conc (a : option jv) : jv :=
+  match a with None => JNull | Some c => JObj [(k_e, JBool false); (k_v, c)] end.
+Definition val (a : option jv) : jv := match a with None => JNull | Some c => c end.
+
+Definition inner (ev : event) : Prop :=
+  match ev with ELeaf p _ => p <> [] | EClose p => length p <> 1%nat end.
+Definition starts_leaf (evs : list event) : Prop :=
+  match evs with ELeaf _ _ :: _ => True | _ => False end.
+
+Lemma step_leaf : forall a p x, p <> [] ->
+  fs_step (conc a) (ELeaf p x) = bind (update p (val a) x) (fun u => ROk (conc (Some u))).
+Proof.
+  intros a p x Hp. destruct p as [|j p']; [congruence|].
+  remember (j :: p') as q eqn:Eq.
+  assert (Lq : Nat.eqb (length q) 0 = false) by (subst q; reflexivity).
+  destruct a as [c|]; unfold fs_step, fs_flag, field, conc, val; cbn [index2 lookup bytes_eqb k_e k_v N.eqb Pos.eqb andb bind truthy];
+    cbn [update lookup bytes_eqb k_e k_v N.eqb Pos.eqb andb];
+    destruct (update q _ x) as [u| |]; cbn [bind]; try reflexivity; rewrite Lq; reflexivity.
+Qed.
+
+Lemma step_close : forall c p, length p <> 1%nat ->
+  fs_step (conc (Some c)) (EClose p) = ROk (conc (Some c)).
+Proof.
+  intros c p Hp. assert (Lq : Nat.eqb (length p) 1 = false) by (apply Nat.eqb_neq; exact Hp).
+  unfold fs_step, fs_flag, field, conc. cbn. rewrite Lq. reflexivity.
+Qed.
+
+Lemma run_final : forall c k, fromstream_run (conc (Some c)) [EClose [k]] = ROk [c].
+Proof. intros. reflexivity. Qed.
+
+Lemma flag_conc : forall a, fs_flag (conc a) = ROk false.
+Proof. intros [c|]; reflexivity. Qed.
+
+Lemma run_inner : forall evs a k, Forall inner evs -> (a = None -> starts_leaf evs) ->
+  fromstream_run (conc a) (evs ++ [EClose [k]]) = bind (replay (val a) (leaves evs)) (fun c' => ROk [c']).
+Proof.
+  induction evs as [|ev evs IH]; intros a k F St.
+  - destruct a as [c|]; [apply run_final | exfalso; exact (St eq_refl)].
+  - apply Forall_cons_iff in F. destruct F as [I F]. cbn [app fromstream_run]. destruct ev as [p x | p].
+    + rewrite step_leaf by exact I. change (leaves (ELeaf p x :: evs)) with ((p, x) :: leaves evs).
+      cbn [replay]. destruct (update p (val a) x) as [u| |]; cbn [bind]; [|reflexivity|reflexivity].
+      rewrite flag_conc. cbn [bind]. rewrite (IH (Some u) k F) by discriminate.
+      cbn [val]. destruct (replay u (leaves evs)); reflexivity.
+    + destruct a as [c|]; [|exfalso; exact (St eq_refl)].
+      rewrite step_close by exact I. cbn [bind]. rewrite flag_conc. cbn [bind].
+      rewrite (IH (Some c) k F) by discriminate.
+      change (leaves (EClose p :: evs)) with (leaves evs).
+      destruct (replay (val (Some c)) (leaves evs)); reflexivity.
+Qed.
+
+Definition close_nonempty (ev : event) : Prop := match ev with EClose p => p <> [] | ELeaf _ _ => True end.
+
+Lemma inner_prepend : forall e evs, Forall close_nonempty evs -> Forall inner (map (ev_prepend e) evs).
+Proof.
+  intros e evs F. apply Forall_map. eapply Forall_impl; [|exact F].
+  intros [p x | p] H; cbn [ev_prepend inner close_nonempty] in *; [discriminate|].
+  destruct p; [congruence | cbn; lia].
+Qed.
+
+Lemma close_nonempty_prepend : forall e evs, Forall close_nonempty (map (ev_prepend e) evs).
+Proof.
+  intros e evs. apply Forall_map. apply Forall_forall. intros [p x | p] _; cbn; [exact I | discriminate].
+Qed.
+
+Lemma ts_arr_close_nonempty : forall l i, Forall close_nonempty (ts_arr_go tostream i l).
+Proof.
+  induction l as [|c r IH]; intros i; [constructor|]. cbn [ts_arr_go]. apply Forall_app.
+  split; [apply close_nonempty_prepend | apply IH].
+Qed.
+Lemma ts_obj_close_nonempty : forall m, Forall close_nonempty (ts_obj_go tostream m).
+Proof.
+  induction m as [|[k c] r IH]; [constructor|]. cbn [ts_obj_go]. apply Forall_app.
+  split; [apply close_nonempty_prepend | apply IH].
+Qed.
+
+Lemma tostream_close_nonempty : forall v, Forall close_nonempty (tostream v).
+Proof.
+  intros v. destruct v as [| | | | | |[|c0 r0]|[|[k0 c0] r0]]; try (constructor; [exact I | constructor]).
+  - cbn [tostream]. apply Forall_app. split; [apply ts_arr_close_nonempty | constructor; [discriminate | constructor]].
+  - cbn [tostream]. apply Forall_app. split; [apply ts_obj_close_nonempty | constructor; [discriminate | constructor]].
+Qed.
+
+Lemma ts_arr_inner : forall l i, Forall inner (ts_arr_go tostream i l).
+Proof.
+  induction l as [|c r IH]; intros i; [constructor|]. cbn [ts_arr_go]. apply Forall_app.
+  split; [apply inner_prepend; apply tostream_close_nonempty | apply IH].
+Qed.
+Lemma ts_obj_inner : forall m, Forall inner (ts_obj_go tostream m).
+Proof.
+  induction m as [|[k c] r IH]; [constructor|]. cbn [ts_obj_go]. apply Forall_app.
+  split; [apply inner_prepend; apply tostream_close_nonempty | apply IH].
+Qed.
+
+Lemma tostream_starts_leaf : forall v, starts_leaf (tostream v).
+Proof.
+  induction v as [| | | | | |l IH|m IH] using jv_ind'; try exact I.
+  - destruct l as [|c0 r0]; [exact I|]. apply Forall_inv in IH. cbn [tostream ts_arr_go].
+    destruct (tostream c0) as [|[p x | p] r]; try contradiction. exact I.
+  - destruct m as [|[k0 c0] r0]; [exact I|]. apply Forall_inv in IH. cbn [snd] in IH. cbn [tostream ts_obj_go].
+    destruct (tostream c0) as [|[p x | p] r]; try contradiction. exact I.
+Qed.
+
+Lemma starts_leaf_app : forall a b, starts_leaf a -> starts_leaf (a ++ b).
+Proof. intros [|[p x | p] a] b H; try contradiction. exact I. Qed.
+
+(* fromstream(tostream) returns exactly its input *)
+Lemma fromstream_tostream : forall v, wf v -> small v -> fromstream (tostream v) = ROk [v].
+Proof.
+  intros v W Sm. pose proof (replay_tostream v W Sm) as R.
+  destruct v as [| | | | | |[|c0 r0]|[|[k0 c0] r0]]; try reflexivity.
+  - rewrite leaves_tostream_arr in R. unfold fromstream. cbn [tostream].
+    change JNull with (conc None) at 1. rewrite run_inner.
+    + cbn [val]. rewrite R. reflexivity.
+    + apply ts_arr_inner.
+    + intros _. pose proof (tostream_starts_leaf c0) as St.
+      cbn [ts_arr_go]. destruct (tostream c0) as [|[p x | p] r]; try contradiction; exact I.
+  - rewrite leaves_tostream_obj in R. unfold fromstream. cbn [tostream].
+    change JNull with (conc None) at 1. rewrite run_inner.
+    + cbn [val]. rewrite R. reflexivity.
+    + apply ts_obj_inner.
+    + intros _. pose proof (tostream_starts_leaf c0) as St.
+      cbn [ts_obj_go]. destruct (tostream c0) as [|[p x | p] r]; try contradiction; exact I.
 Qed.
